@@ -82,6 +82,11 @@ CLAIMED["C06"] = dict(
     text="Decides the index-arithmetic clauses: (index << 32) + offset is injective on the offsets PrssIndex128::new admits (offset <= MAX_OFFSET < 2^32, struct built only in new), MAC and DZKP batches use disjoint record-id families/ranges, every PRSS draw in proof generation takes its index from the batch's RecordIdRange (exhaustion panics), a step cannot be used both indexed and sequentially, and the left and right streams are created for the same index with direction selecting the matching generator. That no execution ever repeats a (step, index) pair, and the AES/HKDF behaviour, are not decided.",
     ref="§3 C06")
 
+CLAIMED["C09"] = dict(
+    technique="static analysis: table over every Serializable impl with compiler-evaluated Size/BITS/PRIME (fallible iff the value space is partial), validity-guard dominance in each fallible decoder, deviant-sibling detection, field-order/offset symmetry of the info codecs",
+    text="Decides the acceptance clauses: sizes hold their BITS; a decoder is infallible exactly when every byte string of its size is canonical; every fallible decoder builds its value only under its validity predicate (v < PRIME by interval analysis, Boolean byte <= 1, zero padding, decompress()); HybridEventType::try_from inverts `as u8`; the info codecs read what they write at the same offsets and widths. One deviant is reported as a known finding (Fp25519 reduces instead of rejecting). Round-trip equality for all values and the bit-matrix transposes are numerical and not decided.",
+    ref="§3 C09")
+
 NOT_APPLICABLE = {
     "C01": "end-to-end numerical equality of the MPC histogram with a plaintext reference over all inputs/shardings: no clause of it is visible in code shape; static analysis in reach cannot bound it (DESIGN.md §4)",
     "C07": "functional correctness of arithmetic/Boolean circuits over all operand values is numerical; would need symbolic execution of the circuits, a different technique family (DESIGN.md §4)",
